@@ -231,7 +231,7 @@ Print Assumptions C13_fragments_callbacks.
 
 Theorem C13_fragments_thresholds : forall nt b mx me v lbv ni thr,
   rthresh_continue v thr = lt_thr (Some v) thr /\
-  (let '(cont, ni', lb') := noimp_block (b_calls b + 1) me v lbv ni mx in
+  (let '(cont, ni', lb') := noimp_block true (b_calls b + 1) me v lbv ni mx in
    dispatchp (Some v) (Step nt) (NoImp b mx me (Some lbv) ni) = (NoImp (base_step nt b) mx me (Some lb') ni', cont)).
 Proof. exact (fun nt b mx me v lbv ni thr => conj (frag_rthresh v thr) (frag_noimp nt b mx me v lbv ni)). Qed.
 Print Assumptions C13_fragments_thresholds.
